@@ -13,6 +13,7 @@ import (
 
 	"github.com/dave/dst"
 	"github.com/dave/dst/decorator"
+	"github.com/dave/dst/decorator/resolver/goast"
 	"github.com/dave/dst/decorator/resolver/gotypes"
 	"github.com/dave/dst/decorator/resolver/simple"
 )
@@ -70,6 +71,7 @@ type c10Case struct {
 	SamePkg  bool
 	Hops     int // 1: source -> target; 2: source -> middle -> target
 	Decl     int // which declaration is moved
+	Goast    bool // the source file is decorated with the goast resolver (no type information)
 }
 
 func (c c10Case) key() string {
@@ -77,7 +79,11 @@ func (c c10Case) key() string {
 	for _, p := range c10Paths {
 		s = append(s, fmt.Sprintf("%s:%s>%s", p, c.SrcState[p], c.DstState[p]))
 	}
-	return fmt.Sprintf("decl%d hops%d same=%v %s", c.Decl, c.Hops, c.SamePkg, strings.Join(s, " "))
+	g := ""
+	if c.Goast {
+		g = " goast"
+	}
+	return fmt.Sprintf("decl%d hops%d same=%v%s %s", c.Decl, c.Hops, c.SamePkg, g, strings.Join(s, " "))
 }
 
 // source file: uses every path under the source's qualifiers; the movable declarations come last
@@ -102,6 +108,15 @@ func c10Source(c c10Case) string {
 	b.WriteString(fmt.Sprintf("var Moved6 = map[int][3]int{%sC%s: {%sC%s: %sV%s}, %sC%s: {}}\n", q("a/x"), k["a/x"], q("A/y"), k["A/y"], q("b.io/x"), k["b.io/x"], q("b.io/x"), k["b.io/x"]))
 	// every kind of assignment to a package-level variable of another package
 	b.WriteString(fmt.Sprintf("\nfunc Moved7(n int) {\n\t%sV%s = n\n\t%sV%s += %sC%s\n\t%sV%s |= 1\n\t%sV%s++\n\tn, %sV%s = %sV%s, n\n}\n", q("a/x"), k["a/x"], q("A/y"), k["A/y"], q("b.io/x"), k["b.io/x"], q("b.io/x"), k["b.io/x"], q("a/x"), k["a/x"], q("A/y"), k["A/y"], q("A/y"), k["A/y"]))
+	// a function-local type alias and a local variable named like two of the source's import names:
+	// selectors on them are a method expression and a field selection, not qualified identifiers
+	// (only generated when those import names are aliases the restorer never chooses: the proviso)
+	if nb, ny := c.SrcState["b.io/x"], c.SrcState["A/y"]; strings.HasPrefix(nb, "z") && strings.HasPrefix(ny, "z") {
+		b.WriteString(fmt.Sprintf("\nfunc Moved8() int {\n\tr := %sV%s\n\t{\n\t\ttype %s = %sT%s\n\t\t%s := %s{F: 1}\n\t\tr += %s.M(%s) + %s.F\n\t}\n\treturn r + %sC%s\n}\n",
+			q("A/y"), k["A/y"], nb, q("a/x"), k["a/x"], ny, nb, nb, ny, ny, q("b.io/x"), k["b.io/x"]))
+	} else {
+		b.WriteString("\nfunc Moved8() int { return 0 }\n")
+	}
 	return b.String()
 }
 
@@ -170,22 +185,26 @@ func c10Run(cs c10Case) (sig, what string, rec obj) {
 	if err != nil {
 		return "", "", nil // the source itself is not type-correct (e.g. two plain imports named x)
 	}
-	ds := decorator.NewDecoratorWithImports(u.fset, "app/src", gotypes.New(info.Uses))
-	ds.ResolveLocalPath = !cs.SamePkg
-	sf, err := ds.DecorateFile(afs[0])
-	if err != nil {
-		return "move-decorate-fails", err.Error(), nil
-	}
-	// the declaration to move (the movable ones are the last eight declarations)
-	idx := len(sf.Decls) - 8 + cs.Decl
-	moved := sf.Decls[idx]
-	before := declFacts(afs[0].Decls[idx], info)
-	sf.Decls = append(sf.Decls[:idx:idx], sf.Decls[idx+1:]...)
-
 	names := map[string]string{"app/src": "src", "app/dst": "dst", "app/mid": "mid"}
 	for p, n := range impPkg {
 		names[p] = n
 	}
+	ds := decorator.NewDecoratorWithImports(u.fset, "app/src", gotypes.New(info.Uses))
+	ds.ResolveLocalPath = !cs.SamePkg
+	if cs.Goast {
+		// the resolver that works from the import block and the parser's object resolution alone
+		ds = decorator.NewDecoratorWithImports(u.fset, "app/src", goast.WithResolver(simple.New(names)))
+	}
+	sf, err := ds.DecorateFile(afs[0])
+	if err != nil {
+		return "move-decorate-fails", err.Error(), nil
+	}
+	// the declaration to move (the movable ones are the last nine declarations)
+	idx := len(sf.Decls) - 9 + cs.Decl
+	moved := sf.Decls[idx]
+	before := declFacts(afs[0].Decls[idx], info)
+	sf.Decls = append(sf.Decls[:idx:idx], sf.Decls[idx+1:]...)
+
 	place := func(pkgPath, pkgName string, decl dst.Decl) (string, *dst.File, error) {
 		text := c10Target(cs, pkgName, true)
 		tu := newUniverse(append(c10Libs(), &memPkg{Import: pkgPath, Path: pkgPath, Files: map[string]string{"t.go": text}})...)
@@ -362,7 +381,7 @@ func checkC10(c *Ctx) {
 	}
 	seen := map[string]bool{}
 	for len(cases) < n {
-		cs := c10Case{SrcState: map[string]string{}, DstState: map[string]string{}, SamePkg: r.Intn(3) == 0, Hops: 1 + r.Intn(2), Decl: r.Intn(8)}
+		cs := c10Case{SrcState: map[string]string{}, DstState: map[string]string{}, SamePkg: r.Intn(3) == 0, Hops: 1 + r.Intn(2), Decl: r.Intn(9), Goast: r.Intn(4) == 0}
 		for i, p := range c10Paths {
 			cs.SrcState[p] = srcStates[r.Intn(len(srcStates))]
 			if cs.SrcState[p] == "z1" {
@@ -378,6 +397,22 @@ func checkC10(c *Ctx) {
 		}
 		if cs.SamePkg {
 			cs.Hops = 1
+		}
+		if cs.Decl == 8 {
+			// the local names of Moved8 are the source's aliases for these two packages
+			cs.SrcState["A/y"], cs.SrcState["b.io/x"] = "z1", "z3"
+		}
+		if cs.Goast {
+			// goast refuses dot-imports and leaves unqualified identifiers alone (Moved3 names a
+			// function of the source package: movable within the package only)
+			for _, p := range c10Paths {
+				if cs.SrcState[p] == "." {
+					cs.SrcState[p] = ""
+				}
+			}
+			if cs.Decl == 3 {
+				cs.SamePkg, cs.Hops = true, 1
+			}
 		}
 		if !seen[cs.key()] {
 			seen[cs.key()] = true
@@ -418,5 +453,5 @@ func checkC10(c *Ctx) {
 	validateTracesF(c, "ImportsTraceMC", tcfg, map[string][]byte{"ImportsTraceMC.tla": []byte(importsTraceMC)}, items, 3000, false, func(it traceItem, res *TLCResult) {
 		c.Fail(Finding{Sig: "moved-" + res.Violated, Input: it.Key, What: fmt.Sprintf("predicate %s of ImportsTrace.tla fails on the target after the move: %s", res.Violated, truncate(string(it.Trace), 500)), Replay: it.Replay})
 	})
-	c.Set("rule", "case = one declaration (var with calls, func with remote parameter types, struct type, func with nested block and a local helper) moved from a file importing three libraries (two with one package name) plainly / aliased / dot-imported into a target file of the same or another package that imports them absent / plain / aliased / dot, in one or two hops; all non-trivial; distinct by configuration")
+	c.Set("rule", "case = one of nine declarations (var with calls, func with remote parameter types, struct type, func with nested block and a local helper, generics, literal keys, assignments, local type alias and variable named like import names) decorated with gotypes or goast and moved from a file importing three libraries (two with one package name) plainly / aliased / dot-imported into a target file of the same or another package that imports them absent / plain / aliased / dot, in one or two hops; all non-trivial; distinct by configuration")
 }
